@@ -72,7 +72,7 @@ func c13Prop(c *sim.Case) {
 	case 2:
 		o.ClientID = sim.PickStr(c, "clientid.odd", "clïent-é", "a b", "a+b", "a%20b", "a&state=x", "a#b", "x=y&client_id=evil", "日本", "a/b?c")
 	}
-	nsc := sim.Pick(c, "nscopes", 4)
+	nsc := sim.Tail(c, "nscopes", 4, 14)
 	for i := 0; i < nsc; i++ {
 		if sim.Weighted(c, "scope.kind", 3, 1) == 0 {
 			o.Scopes = append(o.Scopes, sim.PickStr(c, "scope.std", "email", "profile", "offline_access", "openid", "groups", "openid_groups", "OpenID", "https://idp.test/scopes/openid.read"))
